@@ -169,6 +169,7 @@ func (el *expectLike) onlyAccepts(call *ssa.Call, t int64) bool {
 }
 
 type delimCtx struct {
+	pcMemo map[string]bool
 	m      *Model
 	s      *Sink
 	rule   string
@@ -199,6 +200,15 @@ func (dc *delimCtx) closerInfo(t int64) *consumerInfo {
 			k, ok := c.Call.Args[1].(*ssa.Const)
 			return ok && k.Value != nil && k.Int64() == t
 		}
+		// a helper that requires the token it is given (`closeExp(exp, closer)`: exp when expectPeek(closer) succeeds,
+		// nil otherwise), called with this closer
+		if dc.m.InModule(sc) && sc.Blocks != nil && shortPkg(fnPkgPath(sc)) == "parser" && dc.els[sc] == nil {
+			for i, a := range c.Call.Args {
+				if k, ok := a.(*ssa.Const); ok && k.Value != nil && k.Value.Kind() == constant.Int && k.Int64() == t && i < len(sc.Params) && dc.paramCloser(sc, i) {
+					return true
+				}
+			}
+		}
 		if canonFnName(sc) == "peekTokenIs" {
 			elems := variadicElems(c.Call.Args[len(c.Call.Args)-1])
 			if len(elems) != 1 {
@@ -210,6 +220,35 @@ func (dc *delimCtx) closerInfo(t int64) *consumerInfo {
 		return false
 	}
 	return dc.m.newPassInfo(callPoint, okPoint, dc.parFns, nil)
+}
+
+// paramCloser: every successful return of h lies behind the success edge of an expect function called with h's
+// parameter i as the token.
+func (dc *delimCtx) paramCloser(h *ssa.Function, i int) bool {
+	if dc.pcMemo == nil {
+		dc.pcMemo = map[string]bool{}
+	}
+	key := fmt.Sprintf("%s#%d", fnKey(h), i)
+	if v, ok := dc.pcMemo[key]; ok {
+		return v
+	}
+	dc.pcMemo[key] = false
+	par := h.Params[i]
+	ci := dc.m.newPassInfo(func(ssa.CallInstruction) bool { return false }, func(c *ssa.Call) bool {
+		sc := c.Call.StaticCallee()
+		if sc == nil || dc.els[sc] == nil {
+			return false
+		}
+		for _, a := range c.Call.Args {
+			if a == ssa.Value(par) {
+				return true
+			}
+		}
+		return false
+	}, []*ssa.Function{h}, nil)
+	res := !ci.pathAvoiding(h, h.Blocks[0], 0, ci.successReturn, nil)
+	dc.pcMemo[key] = res
+	return res
 }
 
 func (m *Model) RunDelim(s *Sink, rule string) {
@@ -737,4 +776,92 @@ func (m *Model) firstParserCall(fn *ssa.Function, cur int64, pm *prattModel) *ss
 	args := make([]any, len(fn.Params))
 	ip.Run(fn, args)
 	return first
+}
+
+// RunBraceCount: the lexer tells the `}}` that ends embedded code from two closing braces of nested object literals
+// by a nesting counter. Where a function builds the `{` token (newToken with the constant LBRACE) a store "counter + 1"
+// into a field of the lexer happens on every path to it, and "counter − 1" where it builds `}` — not only in one
+// mode: the arguments of a directive are object literals too (`@component("c", {a: {b: 1}})` ends with `}})`).
+func (m *Model) RunBraceCount(s *Sink, rule string) {
+	newTok := m.Method("lexer", "Lexer", "newToken")
+	if newTok == nil {
+		s.Undecided(rule, "lexer.newToken", "-", "not found")
+		return
+	}
+	n := 0
+	for _, fn := range m.ModFns {
+		if fn.Blocks == nil || shortPkg(fnPkgPath(fn)) != "lexer" {
+			continue
+		}
+		ctx := m.Ctx(fn)
+		for _, b := range fn.Blocks {
+			for _, in := range b.Instrs {
+				c, ok := in.(*ssa.Call)
+				if !ok || c.Call.StaticCallee() != newTok || len(c.Call.Args) < 2 {
+					continue
+				}
+				k, isK := c.Call.Args[1].(*ssa.Const)
+				if !isK || k.Value == nil {
+					continue
+				}
+				name := tokenConstNames[k.Int64()]
+				want := 0
+				switch name {
+				case "LBRACE":
+					want = 1
+				case "RBRACE":
+					want = -1
+				default:
+					continue
+				}
+				// the counter steps of this function
+				var any, dominating bool
+				for _, sb := range fn.Blocks {
+					for _, si := range sb.Instrs {
+						st, isSt := si.(*ssa.Store)
+						if !isSt {
+							continue
+						}
+						fa, isFA := st.Addr.(*ssa.FieldAddr)
+						if !isFA || !strings.HasSuffix(derefTypeString(fa.X.Type()), "lexer.Lexer") {
+							continue
+						}
+						bo, isBo := st.Val.(*ssa.BinOp)
+						if !isBo || (bo.Op != token.ADD && bo.Op != token.SUB) {
+							continue
+						}
+						kk, isKK := bo.Y.(*ssa.Const)
+						if !isKK || kk.Value == nil || kk.Int64() != 1 {
+							continue
+						}
+						if _, p, okP := pathOf(bo.X); !okP || p != "."+fieldName(fa.X.Type(), fa.Field) {
+							continue
+						}
+						step := 1
+						if bo.Op == token.SUB {
+							step = -1
+						}
+						if step != want {
+							continue
+						}
+						any = true
+						if ctx.instrDominates(st, c) || st.Block() == c.Block() {
+							dominating = true // before the token is built, or right after it in the same straight line
+						}
+					}
+				}
+				if !any {
+					continue // the nesting is kept elsewhere (by the caller, by a merged function): not this rule's shape
+				}
+				n++
+				key := fmt.Sprintf("%s|the nesting counter is stepped for every %s", fnKey(fn), name)
+				if dominating {
+					s.OK(rule, key, m.InstrPos(c), "a step of %+d dominates the construction of the token", want)
+				} else {
+					s.Violation(rule, key, m.InstrPos(c), "%s builds the %s token on a path that does not step the nesting counter (the step is made under a condition): in the mode that is skipped — the arguments of a directive are object literals too — the closing braces of a nested object (`}})` ) are taken for the `}}` that ends embedded code, and a correct template is rejected", fnKey(fn), name)
+				}
+			}
+		}
+	}
+	s.Note(rule, "brace tokens built next to a counter step", "-", "%d", n)
 }
